@@ -177,4 +177,17 @@ CHECKS = {
         assumptions=["real time: states are compared only after 1.7 s without any callback or TCP accept (longer than the scaled dial back-off plus the "
                      "delayed notifications); scenarios that do not settle are counted as inconclusive, never as violations"],
     ),
+    "C18": dict(
+        level="exploration",
+        rule=("rapid-generated notification histories on a real hub.Hub inside a synctest bubble (listener fails at once, fake mDNS provider): "
+              "for 1-4 SKIs the harness plays the SHIP connections and reports SHIP-legal state sequences (success for both roles, remote "
+              "denial, rejection, abort, pending, error at any phase) through HandleShipHandshakeStateUpdate, interleaved across SKIs, with "
+              "virtual gaps of 0 / 1 us / 1 ms / 100 ms / 600 ms, and with RegisterRemoteSKI / CancelPairingWithSKI / UnregisterRemoteSKI at "
+              "drawn positions; GOMAXPROCS 1/2/16. Oracle: the hub's own state sequence is read back after every call; per SKI the last "
+              "notification equals PairingDetailForSki at quiescence and the delivered states form a subsequence of the hub's sequence. "
+              "non-trivial = two changes less than 500 ms apart; distinct = hash of the script"),
+        runs=[dict(engine="hubsim", test="TestC18", quick=dict(checks=12000, shards=4, timeout=600),
+                   thorough=dict(checks=400000, shards=16, timeout=3000))],
+        assumptions=["the order in which simultaneously due notification goroutines run is sampled by the Go scheduler (GOMAXPROCS 1/2/16), not enumerated"],
+    ),
 }
